@@ -24,7 +24,7 @@ from .. import alignsim
 from ..alignsim import FITMIN, expected_groups
 
 ID = 'C13'
-RULE = ('lists of 1..5 FITS correctors on a synthetic lattice of sources: every image good / junk '
+RULE = ('lists of 1..5 correctors (FITS TAN; in about a third of the scenarios mock-JWST gWCS) on a synthetic lattice of sources: every image good / junk '
         '(unmatchable, off-lattice) / empty, group ids from {None, 1, 2} (members of a group never overlap), '
         'reference none / table with or without ids / corrector, expand_refcat x enforce_user_order x '
         'minobj in {None, minimum, minimum+2, 300, below the minimum} x fitgeom in {shift, rshift, rscale, '
@@ -42,6 +42,21 @@ ASSUMPTIONS = [
     'runs in which expand_refcat appended the (uncorrected) catalog of a FAILED group that has no overlap '
     'with the reference are checked by the oracle only: later images are then matched against a mixture of '
     'two frames, which the ideal matcher does not describe',
+]
+
+RULE += ('; degenerate fits: one image (or two-chip group) of 2..4 whose catalog is exactly collinear (general '
+         'fit) or holds fewer positively weighted sources than the geometry needs, at every list position, '
+         'reference table / corrector / none, expand_refcat x enforce_user_order; argument validation: every '
+         'single invalid argument and every pair of two, exception class and message against the model\'s error '
+         'kind; fit_wcs on FITS (CD/PC) and mock-JWST correctors: 0..12 pre-matched sources, all fit geometries, '
+         'collinear / zero-weight / too-few inputs, invalid arguments singly and in pairs')
+ASSUMPTIONS += [
+    'whether a fit is degenerate is decided by construction and given to the model as data: an ungrouped image '
+    'whose catalog is exactly collinear in pixel coordinates cannot be fitted with \'general\' (any other geometry '
+    'can), a group with fewer positively weighted sources than the geometry needs cannot be fitted at all; '
+    'catalogs collinear only up to rounding (degenerate footprint polygons) are out of scope',
+    'zero-weight images are kept away from the reference catalog (never the reference image, always overlapping '
+    'the reference, so never appended): reference rows of weight zero would make the fits of OTHER images fail',
 ]
 
 ORIGINS = [(0, 0), (400, 100), (-300, 350), (700, 600), (250, -400), (5000, 5000), (1100, 0), (0, 1100),
@@ -126,6 +141,9 @@ def gen_spec(rng, n=None, gids=None, match=True):
             'match': True}
     if rng.random() < 0.7:
         spec['labels'] = alignsim.draw_labels(rng, gids)
+    mk = draw_makers(rng, kinds)
+    if mk:
+        spec['makers'] = mk
     return spec
 
 
@@ -161,6 +179,18 @@ def add_ref_ids(rng, scene, spec):
     ref['ids'] = rng.sample(range(lo, lo + 3 * nsrc + 10), nsrc)
     if lo == 0 and nsrc and 0 not in ref['ids']:
         ref['ids'][rng.randrange(nsrc)] = 0
+
+
+def draw_makers(rng, kinds):
+    """corrector type of the images of a scenario: about a third of the scenarios use mock-JWST gWCS correctors
+    (all images: the tangent plane, and with it the unit of the matcher's radii, is that of the first image of
+    each group, so one matcher cannot serve a list that mixes pixels and arcseconds).  Scenarios with a 'junk'
+    image stay FITS: junk sources sit on the unjittered lattice, the hull of such a catalog has exactly
+    collinear boundary points in pixel space, and through a gWCS these reach spherical_geometry collinear only
+    up to rounding ("Out of domain for acos" in SphericalPolygon.area: footprint territory, C16)"""
+    if any(kd == 'junk' for kd in kinds) or rng.random() >= 0.55:
+        return None
+    return ['jwst'] * len(kinds)
 
 
 def canon(spec):
@@ -253,6 +283,17 @@ def oracle(ctx, case, rec):
                 fail('members of a group do not share identical fit results', group=g, image=k,
                      keys=[key for key in a if key not in b or not same_value(a[key], b[key])][:5])
                 break
+    fmin = FITMIN[spec['fitgeom']]
+    for g in groups:
+        kinds = [spec['images'][k][1] for k in g]
+        if len(g) == 1 and kinds[0].startswith('line:') and spec['fitgeom'] == 'general' and st[g[0]] == 'SUCCESS':
+            fail('a general (6-parameter) fit was reported SUCCESS for a catalog of exactly collinear sources',
+                 image=g[0], status=st)
+        if spec.get('weights') and all(kd.startswith('zerow:') for kd in kinds):
+            npos = sum(min(int(kd.split(':')[1]), len(rec['srcs'][k])) for kd, k in zip(kinds, g))
+            if npos < fmin and any(st[k] == 'SUCCESS' for k in g):
+                fail('a fit was reported SUCCESS with fewer positively weighted sources than the geometry needs',
+                     group=g, positive=npos, status=st)
     for k in range(n):
         if st[k] == 'SUCCESS':
             if rec['ncorr'][k] != 1:
@@ -429,6 +470,530 @@ def degenerate_fit_probes(ctx, count):
                                        'image': k, 'status': st, 'ncorr': ncorr})
 
 
+
+# ---------------------------------------------------------------------------
+# (A) degenerate fits inside multi-group scenarios, against the model
+# ---------------------------------------------------------------------------
+NEAR = [(0, 0), (400, 100), (-300, 350), (250, -400), (-200, -250), (350, 420)]   # all overlap each other
+
+
+def gen_degenerate(rng, scene, kind=None, pos=None, n=None, refmode=None, expand=None, enforce=None):
+    """a scenario with ONE designated degenerate image (or two-chip group): 'line' - exactly collinear catalog,
+    matched through a reference that lists its sources; 'zerow' - fewer positive weights than the geometry
+    needs.  Returns None when the placement fails."""
+    n = n or rng.choice([2, 3, 3, 4])
+    pos = rng.randrange(n) if pos is None else pos % n
+    kind = kind or rng.choice(['line', 'line', 'zerow'])
+    refmode = refmode or rng.choice(['table', 'table', 'corrector', 'none'])
+    if kind == 'line' and refmode == 'none':
+        refmode = 'table'       # a collinear reference catalog has no footprint: out of scope
+    expand = (rng.random() < 0.5) if expand is None else expand
+    enforce = (rng.random() < 0.5) if enforce is None else enforce
+    if refmode == 'none':
+        enforce = True          # the zero-weight image must not become the reference image
+        if pos == 0:
+            pos = 1
+    origins = rng.sample(NEAR, n)
+    gids = [None] * n
+    kinds = ['good'] * n
+    for k in range(n):
+        if k != pos and rng.random() < 0.2:
+            kinds[k] = rng.choice(['junk', 'empty'])
+    if refmode == 'none':
+        kinds[0] = 'good'
+    fitgeom = 'general' if (kind == 'line' and rng.random() < 0.8) else rng.choice(['shift', 'rshift', 'rscale', 'general'])
+    fmin = FITMIN[fitgeom]
+    spec = {'errs': None, 'expand': expand, 'enforce': enforce, 'fitgeom': fitgeom, 'match': True,
+            'minobj': rng.choice([None, None, fmin, fmin + 1]), 'degenerate': [pos], 'family_kind': kind}
+    line_ids = []
+    if kind == 'line':
+        d = rng.randrange(len(alignsim.LINE_DIRS))
+        nl = rng.choice([3, 4, 4, 6, 9])
+        kinds[pos] = 'line:%d:%d' % (d, nl)
+        line_ids = scene.line_sources(pos, origins[pos], d, nl)
+        if len(line_ids) < 3:
+            return None
+        # occasionally a second chip in the group of the collinear image, whose sources the reference knows:
+        # the matched sources of the group are then not collinear and can be fitted (control)
+        second_chip = None
+        if n >= 3 and rng.random() < 0.15:
+            other = next((k for k in range(n) if k != pos), None)
+            origins[other] = (origins[pos][0] + 1100, origins[pos][1])
+            kinds[other] = 'good'
+            gids[pos] = gids[other] = 1
+            second_chip = scene.inside(origins[other])
+    else:
+        spec['weights'] = True
+        npos = rng.randrange(0, fmin)
+        kinds[pos] = 'zerow:%d' % npos
+        if n >= 3 and rng.random() < 0.3 and refmode != 'none':
+            # a two-chip group, both zero-weighted, fewer positive weights than needed in total
+            other = next((k for k in range(n) if k != pos), None)
+            origins[other] = (origins[pos][0] + 1100, origins[pos][1])
+            kinds[other] = 'zerow:0'
+            gids[pos] = gids[other] = 1
+            spec['degenerate'] = [pos, other]
+    spec['images'] = [(o, k, g) for o, k, g in zip(origins, kinds, gids)]
+    spec['errs'] = group_errs(rng, gids)
+    if refmode == 'none':
+        spec['ref'] = None
+    else:
+        base = alignsim.ref_sources(scene, rng.choice(['wide', 'wide', 'centre']))
+        if kind == 'line' and second_chip:
+            base = base + [s_ for s_ in second_chip if s_ not in set(base)]
+        listed = list(line_ids)
+        if line_ids and rng.random() < 0.2:
+            listed = line_ids[:2]        # too few of the collinear sources are known: 'not enough matches'
+        spec['ref'] = {'kind': refmode, 'region': None, 'sources': base + listed, 'ids': None}
+    # the collinear sources are real: the good images whose window holds them see them too
+    if line_ids and rng.random() < 0.5:
+        extra = {}
+        for k, (o, kd, g) in enumerate(spec['images']):
+            if kd == 'good':
+                inside = [sid for sid in line_ids
+                          if 20 <= scene.position(sid)[0] - o[0] <= alignsim.FIELD - 20
+                          and 20 <= scene.position(sid)[1] - o[1] <= alignsim.FIELD - 20]
+                if inside:
+                    extra[str(k)] = inside
+        if extra:
+            spec['extra'] = extra
+    mk = draw_makers(rng, kinds)
+    if mk:
+        spec['makers'] = mk
+    return spec
+
+
+def degenerate_scenarios(ctx, scene, scene_seed, lines, pending):
+    rng = ctx.rng
+    # fixed grid first: both kinds x every position of a 3-image list x expand x enforce, reference table
+    if not ctx.search_only:
+        for kind in ('line', 'zerow'):
+            for pos in (0, 1, 2):
+                for expand, enforce in ((False, True), (True, True), (True, False)):
+                    spec = None
+                    for _ in range(20):
+                        spec = gen_degenerate(rng, scene, kind=kind, pos=pos, n=3, refmode='table', expand=expand,
+                                              enforce=enforce)
+                        if spec is not None:
+                            break
+                    if spec is not None:
+                        do_scenario(ctx, scene, scene_seed, spec, lines, pending, 'degenerate:' + kind)
+    for _ in range(ctx.n(20, 220)):
+        spec = gen_degenerate(rng, scene)
+        if spec is None:
+            continue
+        add_ref_ids(rng, scene, spec)
+        do_scenario(ctx, scene, scene_seed, spec, lines, pending, 'degenerate:' + spec['family_kind'])
+
+
+# ---------------------------------------------------------------------------
+# (B) argument validation: every single invalid argument and every pair, against `alignentry`
+# ---------------------------------------------------------------------------
+VALIDATION_KINDS = ('wcscatType', 'noCatalog', 'catalogNoXY', 'fitgeomNotString', 'badFitgeom', 'refNoCatalog',
+                    'refNoRADEC', 'refcatType', 'emptyRefcat')
+# slot -> modifications; a modification is (name, exception classes the code may raise because of it)
+VALIDATION_MODS = {
+    'W': [('not-iterable', ('TypeError',)), ('non-corrector-first', ('TypeError',)),
+          ('non-corrector-last', ('TypeError',)), ('single-corrector', ())],
+    'C': [('no-catalog@0', ('ValueError',)), ('no-catalog@1', ('ValueError',)), ('catalog-none@1', ('ValueError',)),
+          ('no-xy@0', ('ValueError',)), ('no-xy@1', ('ValueError',))],
+    'F': [('fitgeom-unknown', ('ValueError',)), ('fitgeom-not-string', ('AttributeError',)),
+          ('fitgeom-unknown+minobj', ('KeyError',)), ('fitgeom-upper', ())],
+    'R': [('ref-unsupported', ('TypeError',)), ('ref-corrector-no-catalog', ('ValueError',)),
+          ('ref-table-no-radec', ('KeyError',)), ('ref-table-empty', ('ValueError',)),
+          ('ref-corrector-empty', ('ValueError',)), ('ref-table-empty-no-radec', ('KeyError',)),
+          ('ref-table', ())],
+    'N': [('all-empty', ('NotEnoughCatalogs',)), ('one-empty', ('NotEnoughCatalogs',))],
+}
+
+
+def validation_case(ctx, scene, mods):
+    """apply the modifications `mods` (list of (slot, name)) to a valid two-image call, run the real align_wcs
+    and build the `alignentry` line of the same arguments"""
+    from astropy.table import Table
+    from tweakwcs import align_wcs, XYXYMatch, FITSWCSCorrector
+    names = [m for _, m in mods]
+    a, ida = scene.make_image(0, (0, 0), 'good', None, err=(0.7, -0.4))
+    b, idb = scene.make_image(1, (400, 100), 'good', None, err=(-0.9, 1.1))
+    correctors = [a, b]
+    items = [[1, 'o', list(ida)], [1, 'o', list(idb)]]          # isCorrector, catalog, sources
+    wkind = 'list'
+    wcscat = [a, b]
+    fitgeom, fg_tok, minobj = 'rscale', 'k2', None
+    refcat, ref_tok = None, ['none']
+    centre = alignsim.ref_sources(scene, 'centre')
+    rd = scene.sky_of(centre)
+    for nm in names:
+        if nm in ('all-empty', 'one-empty'):
+            for k, c in enumerate(correctors):
+                if nm == 'all-empty' or k == 1:
+                    c.meta['catalog'] = Table([np.zeros(0), np.zeros(0)], names=('x', 'y'))
+                    items[k][2] = []
+    for nm in names:
+        if nm.startswith(('no-catalog@', 'catalog-none@', 'no-xy@')):
+            k = int(nm.split('@')[1])
+            if nm.startswith('no-catalog@'):
+                correctors[k].meta.pop('catalog')
+                items[k][1] = 'm'
+            elif nm.startswith('catalog-none@'):
+                correctors[k].meta['catalog'] = None
+                items[k][1] = 'm'
+            else:
+                correctors[k].meta['catalog'] = Table([np.arange(3.0)], names=('flux',))
+                items[k][1] = 'x'
+    for nm in names:
+        if nm == 'not-iterable':
+            wcscat, wkind = 42, 'bad'
+        elif nm == 'non-corrector-first':
+            wcscat = ['not a corrector'] + wcscat
+            items = [[0, 'o', []]] + items
+        elif nm == 'non-corrector-last':
+            wcscat = wcscat + [None]
+            items = items + [[0, 'o', []]]
+        elif nm == 'single-corrector':
+            wcscat, wkind = correctors[0], 'single'
+            items = items[:1]
+        elif nm == 'fitgeom-unknown':
+            fitgeom, fg_tok = 'bogus', 'u'
+        elif nm == 'fitgeom-not-string':
+            fitgeom, fg_tok = 7, 'n'
+        elif nm == 'fitgeom-unknown+minobj':
+            fitgeom, fg_tok, minobj = 'bogus', 'u', 2
+        elif nm == 'fitgeom-upper':
+            fitgeom = 'RScale'
+        elif nm == 'ref-unsupported':
+            refcat, ref_tok = {'RA': [1.0], 'DEC': [2.0]}, ['unsupported']
+        elif nm == 'ref-corrector-no-catalog':
+            refcat, ref_tok = FITSWCSCorrector(alignsim.mkwcs((1.0, 1.0), crval=scene.crval)), ['corr', '0', '0']
+        elif nm == 'ref-corrector-empty':
+            refcat = FITSWCSCorrector(alignsim.mkwcs((1.0, 1.0), crval=scene.crval),
+                                      meta={'catalog': Table([np.zeros(0), np.zeros(0)], names=('x', 'y'))})
+            ref_tok = ['corr', '1', '0']
+        elif nm == 'ref-table-no-radec':
+            refcat = Table([rd[:, 0], rd[:, 1]], names=('ra', 'dec'))
+            ref_tok = ['table', '0', str(len(centre))] + [str(s_) for s_ in centre] + ['0']
+        elif nm == 'ref-table-empty':
+            refcat, ref_tok = Table([rd[:0, 0], rd[:0, 1]], names=('RA', 'DEC')), ['table', '1', '0', '0']
+        elif nm == 'ref-table-empty-no-radec':
+            refcat, ref_tok = Table([rd[:0, 0]], names=('u',)), ['table', '0', '0', '0']
+        elif nm == 'ref-table':
+            refcat = Table([rd[:, 0], rd[:, 1]], names=('RA', 'DEC'))
+            ref_tok = ['table', '1', str(len(centre))] + [str(s_) for s_ in centre] + ['0']
+    before = [alignsim.sky_grid(c) for c in correctors]
+    with alignsim.observe(correctors) as obs:
+        try:
+            align_wcs(wcscat, refcat=refcat, fitgeom=fitgeom, minobj=minobj, enforce_user_order=True,
+                      expand_refcat=False, match=XYXYMatch(searchrad=5, separation=0.5, tolerance=2.0))
+            exc = None
+        except Exception as e:   # noqa
+            exc = (type(e).__name__, str(e)[:160])
+    toks = ['alignentry', 'F', '0', '1', '-' if minobj is None else str(minobj), fg_tok, '0', 'W']
+    if wkind == 'bad':
+        toks.append('bad')
+    elif wkind == 'single':
+        toks += ['single', items[0][1], '-', '0', str(len(items[0][2]))] + [str(s_) for s_ in items[0][2]]
+    else:
+        toks += ['list', str(len(items))]
+        for ic, cat, srcs in items:
+            toks += [str(ic), cat, '-', '0', str(len(srcs))] + [str(s_) for s_ in srcs]
+    toks += ['R'] + ref_tok + alignsim.area_tokens(obs, f2x)
+    rec = {'exc': exc, 'ims': correctors, 'obs': obs,
+           'status': [c.meta.get('fit_info', {}).get('status') if isinstance(c.meta.get('fit_info'), dict) else None
+                      for c in correctors],
+           'has_info': ['fit_info' in c.meta for c in correctors],
+           'ncorr': [obs.corrections[id(c)] for c in correctors],
+           'unchanged': [bool(np.array_equal(x, alignsim.sky_grid(c))) for x, c in zip(before, correctors)],
+           'offset': 1 if 'non-corrector-first' in names else 0}
+    return ' '.join(toks), rec
+
+
+def validation_pairs():
+    slots = sorted(VALIDATION_MODS)
+    out = [[]]
+    for sl in slots:
+        for nm, _ in VALIDATION_MODS[sl]:
+            out.append([(sl, nm)])
+    for i, s1 in enumerate(slots):
+        for s2 in slots[i + 1:]:
+            for n1, _ in VALIDATION_MODS[s1]:
+                for n2, _ in VALIDATION_MODS[s2]:
+                    out.append([(s1, n1), (s2, n2)])
+    # two bad catalogs in one list: the first in list order wins
+    out += [[('C', 'no-catalog@0'), ('C', 'no-xy@1')], [('C', 'no-xy@0'), ('C', 'no-catalog@1')],
+            [('C', 'no-xy@0'), ('C', 'catalog-none@1')]]
+    return out
+
+
+def validation_probes(ctx, scene, lines, pending):
+    for mods in validation_pairs():
+        names = [m for _, m in mods]
+        if 'single-corrector' in names and any(m.endswith('@1') or m == 'one-empty' for m in names):
+            continue     # there is no second corrector
+        if 'not-iterable' in names and 'single-corrector' in names:
+            continue
+        case = {'op': 'alignentry', 'mods': names}
+        line, rec = validation_case(ctx, scene, mods)
+        ctx.case(case, nontrivial=bool(mods), branch='validation:%d-invalid:%s' % (
+            len(mods), 'raised:' + rec['exc'][0] if rec['exc'] else 'returned'))
+        # oracle: an exception must be one that one of the invalid arguments explains, and no WCS was modified
+        allowed = set()
+        for sl, nm in mods:
+            if nm == 'one-empty' and 'ref-table' in names:
+                continue     # one non-empty catalog is enough when a reference catalog is given
+            allowed.update(dict(VALIDATION_MODS[sl])[nm])
+        late = 'fitgeom-unknown+minobj' in names
+        if rec['exc'] is None:
+            if allowed:
+                ctx.oracle_fail(case, {'what': 'invalid argument accepted', 'status': rec['status']})
+        else:
+            if rec['exc'][0] not in allowed and not (rec['exc'][0] == 'NotEnoughCatalogs' and
+                                                     'single-corrector' in names):
+                ctx.oracle_fail(case, {'what': 'invalid arguments raised an unexpected exception',
+                                       'exception': rec['exc']})
+            if any(rec['ncorr']) or not all(rec['unchanged']):
+                ctx.oracle_fail(case, {'what': 'a WCS was modified although align_wcs raised on invalid arguments',
+                                       'exception': rec['exc'], 'ncorr': rec['ncorr']})
+            if late and rec['exc'][0] == 'KeyError':
+                # observation (not a property violation: no WCS is modified): an unknown fitgeom passed with
+                # an explicit minobj escapes validation and surfaces as a bare KeyError in align_to_ref
+                ctx.branch('observation:unknown-fitgeom-with-minobj-raises-KeyError-after-statuses')
+        lines.append(line)
+        pending.append((case, rec, 'entry'))
+
+
+def compare_entry(ctx, case, rec, out):
+    m = alignsim.parse_model(out)
+
+    def bad(w, **kw):
+        d = {'op': 'alignentry', 'what': w, 'model': out[:300]}
+        d.update(kw)
+        ctx.disagree(case, d)
+    if m is None:
+        bad('unparsable model answer')
+        return
+    mk = None if m['head'] == 'ok' else m['head'][4:]
+    if not alignsim.error_matches(mk, rec['exc']):
+        bad('outcome: exception of the code against the error kind of the model', impl_exc=rec['exc'])
+        return
+    off = rec['offset']
+    n = len(rec['ims'])
+    mod_st = [m['status'].get(k + off, [None])[-1] for k in range(n)]
+    real_st = [alignsim.STATUS_CODE.get(s_, None if s_ is None else 'F?') for s_ in rec['status']]
+    if mod_st != real_st:
+        bad('statuses written', impl=real_st, model_status=mod_st)
+        return
+    if [m['ncorr'].get(k + off, 0) for k in range(n)] != rec['ncorr']:
+        bad('set_correction calls', impl=rec['ncorr'])
+        return
+    if mk in VALIDATION_KINDS and (any(rec['has_info']) or any(rec['ncorr']) or not all(rec['unchanged'])):
+        bad('a validation error left something written or modified', impl=rec['status'])
+
+
+# ---------------------------------------------------------------------------
+# (C) fit_wcs on FITS and mock-JWST correctors, against `fitwcs`
+# ---------------------------------------------------------------------------
+FITWCS_INVALID = ['bad-fitgeom', 'fitgeom-not-string', 'length-mismatch', 'empty-ref', 'ref-no-radec', 'im-no-xy']
+FITWCS_CLASS = {'bad-fitgeom': 'ValueError', 'fitgeom-not-string': 'AttributeError', 'length-mismatch': 'ValueError',
+                'empty-ref': 'ValueError', 'ref-no-radec': 'KeyError', 'im-no-xy': 'ValueError'}
+
+
+def fitwcs_plan():
+    """(content kind, invalid modifications): every content kind valid, every single invalid modification and
+    every pair"""
+    plan = [(c, []) for c in ('ok', 'ok', 'few', 'exact', 'collinear', 'collinear-other-geom', 'zerow-im', 'zerow-ref')]
+    plan += [('ok', [m]) for m in FITWCS_INVALID]
+    plan += [('ok', [a, b]) for a, b in itertools.combinations(FITWCS_INVALID, 2)
+             if not ({a, b} == {'bad-fitgeom', 'fitgeom-not-string'})]
+    plan += [('collinear', ['bad-fitgeom']), ('few', ['length-mismatch']), ('zerow-im', ['ref-no-radec'])]
+    return plan
+
+
+def fitwcs_case(ctx, it, content, mods):
+    from astropy.table import Table
+    from tweakwcs import fit_wcs
+    from .. import scenes
+    rng = ctx.rng
+    ckind = 'jwst' if it % 2 else 'fits'
+    if ckind == 'jwst':
+        c, info = scenes.mk_jwst(rng)
+    else:
+        c, info = scenes.mk_fits(rng, kind=rng.choice(['cd', 'pc']))
+    nx, ny = scenes.image_size(c)
+    fitgeom = rng.choice(['shift', 'rshift', 'rscale', 'general'])
+    if content.startswith('collinear'):
+        fitgeom = 'general' if content == 'collinear' else rng.choice(['shift', 'rshift', 'rscale'])
+    fmin = FITMIN[fitgeom]
+    flag = 0
+    wim = wref = None
+    if content == 'few':
+        n = rng.randrange(0, fmin)
+    elif content == 'exact':
+        n = fmin
+    elif content.startswith('collinear'):
+        n = rng.choice([3, 4, 7])
+    else:
+        n = rng.randrange(fmin, 13)
+    m = 60.0
+    if content.startswith('collinear'):
+        # exactly collinear in pixel coordinates; rows / columns only for the mock JWST pipelines (their detector
+        # distortion is separable, so that rows and columns stay straight in the tangent plane)
+        dirs = [(1.0, 0.0), (0.0, 1.0)] if ckind == 'jwst' else [(1.0, 0.0), (0.0, 1.0), (1.0, 1.0), (1.0, -1.0), (2.0, 1.0)]
+        dx, dy = rng.choice(dirs)
+        t = sorted(rng.sample(range(-6, 7), n))
+        x = nx / 2.0 + np.array(t) * 31.0 * dx
+        y = ny / 2.0 + np.array(t) * 31.0 * dy
+        if content == 'collinear':
+            flag = 1
+    else:
+        x = np.array([rng.uniform(m, nx - m) for _ in range(n)])
+        y = np.array([rng.uniform(m, ny - m) for _ in range(n)])
+    if content in ('zerow-im', 'zerow-ref') and n >= fmin:
+        w = np.array([1.0] * rng.randrange(0, fmin) + [0.0] * n)[:n]
+        if content == 'zerow-im':
+            wim = w
+        else:
+            wref = w
+        flag = 2
+    ex, ey = rng.uniform(-0.8, 0.8), rng.uniform(-0.8, 0.8)
+    if n:
+        ra, dec = c.det_to_world(x + ex, y + ey)
+    else:
+        ra, dec = np.zeros(0), np.zeros(0)
+    ref = Table({'RA': np.atleast_1d(ra).astype(float), 'DEC': np.atleast_1d(dec).astype(float)})
+    im = Table({'x': x.astype(float), 'y': y.astype(float)})
+    if wim is not None:
+        im['weight'] = wim
+    if wref is not None:
+        ref['weight'] = wref
+    fg_real, fg_tok, cat_tok, has_rd = fitgeom, 'k%d' % fmin, 'o', 1
+    nref = n
+    for md in mods:
+        if md == 'bad-fitgeom':
+            fg_real, fg_tok = 'affine', 'u'
+        elif md == 'fitgeom-not-string':
+            fg_real, fg_tok = None, 'n'
+        elif md == 'length-mismatch':
+            extra = Table({'RA': [float(np.mean(ra)) if n else 10.0], 'DEC': [float(np.mean(dec)) if n else 10.0]})
+            if 'weight' in ref.colnames:
+                extra['weight'] = [1.0]
+            from astropy.table import vstack
+            ref = vstack([ref, extra])
+            nref = n + 1
+        elif md == 'empty-ref':
+            ref = ref[:0]
+            nref = 0
+        elif md == 'ref-no-radec':
+            ref.rename_column('RA', 'ra')
+            has_rd = 0
+        elif md == 'im-no-xy':
+            im.rename_column('x', 'col')
+            cat_tok = 'x'
+    if 'empty-ref' in mods:
+        nref = 0
+    grid_x = np.array([0.1 * nx, 0.5 * nx, 0.9 * nx])
+    grid_y = np.array([0.2 * ny, 0.5 * ny, 0.8 * ny])
+    before = np.array(c.det_to_world(grid_x, grid_y))
+    had = 'fit_info' in c.meta
+    ncorr = [0]
+    orig = c.set_correction
+
+    def counted(*a, **kw):
+        ncorr[0] += 1
+        return orig(*a, **kw)
+    c.set_correction = counted
+    try:
+        try:
+            ret = fit_wcs(ref, im, c, fitgeom=fg_real, nclip=rng.choice([None, 0, 3]), sigma=3.0)
+            exc = None
+        except Exception as e:   # noqa
+            ret = None
+            exc = (type(e).__name__, str(e)[:160])
+    finally:
+        try:
+            del c.set_correction
+        except AttributeError:
+            pass
+    after = np.array(c.det_to_world(grid_x, grid_y))
+    fi = c.meta.get('fit_info')
+    status = fi.get('status') if isinstance(fi, dict) else None
+    case = {'op': 'fitwcs', 'corrector': ckind, 'content': content, 'mods': list(mods), 'fitgeom': fitgeom, 'n': n,
+            'info': {k: info[k] for k in info if k in ('kind', 'crval', 'distortion_k', 'vacorr')}}
+    ctx.case(case, nontrivial=True, branch='fitwcs:%s:%s:%s' % (ckind, content, '+'.join(mods) or 'valid'))
+    ctx.branch('fitwcs-status:%s' % status)
+    moved = not np.array_equal(before, after)
+
+    def fail(what, **kw):
+        d = {'what': what, 'status': status, 'exception': exc}
+        d.update(kw)
+        ctx.oracle_fail(case, d)
+    # oracle (no model): the clauses of the property for a single image
+    if exc is not None:
+        if not mods and not (content == 'few' and n == 0):
+            fail('fit_wcs raised on valid arguments')
+        elif mods and exc[0] not in {FITWCS_CLASS[md] for md in mods} and not (n == 0 and exc[0] == 'ValueError'):
+            fail('fit_wcs raised an exception that none of the invalid arguments explains')
+        if moved or ncorr[0]:
+            fail('the WCS was modified although fit_wcs raised', ncorr=ncorr[0])
+    else:
+        if mods:
+            fail('invalid arguments accepted by fit_wcs')
+        if ret is not c:
+            fail('fit_wcs did not return the corrector it was given')
+        if not (isinstance(status, str) and (status == 'SUCCESS' or status.startswith('FAILED: '))) \
+                or status == 'FAILED: Unknown error':
+            fail('fit_wcs returned without a final status')
+        elif status == 'SUCCESS':
+            if ncorr[0] != 1 or not moved:
+                fail('SUCCESS but the WCS was not corrected exactly once', ncorr=ncorr[0], moved=moved)
+            if n < fmin or flag:
+                fail('SUCCESS reported for an input that cannot be fitted', n=n, minimum=fmin, degenerate=flag)
+        elif ncorr[0] or moved:
+            fail('the WCS of an image that is not SUCCESS was modified', ncorr=ncorr[0])
+    line = ' '.join(['fitwcs', '1', fg_tok, cat_tok, '-', str(flag), str(n)] + [str(j + 1) for j in range(n)]
+                    + [str(has_rd), str(nref)] + [str(j + 1) for j in range(nref)])
+    return line, case, {'exc': exc, 'status': status, 'ncorr': ncorr[0], 'had': had}
+
+
+def compare_fitwcs(ctx, case, rec, out):
+    parts = [p_.split() for p_ in out.split('|')]
+
+    def bad(w, **kw):
+        d = {'op': 'fitwcs', 'what': w, 'model': out[:200]}
+        d.update(kw)
+        ctx.disagree(case, d)
+    if len(parts) != 2 or not parts[0]:
+        bad('unparsable model answer')
+        return
+    head = parts[0][0]
+    mk = None if head == 'ok' else head[4:]
+    if not alignsim.error_matches(mk, rec['exc']):
+        bad('outcome: exception of the code against the error kind of the model', impl_exc=rec['exc'])
+        return
+    ev = parts[1][1:]
+    st = [e[1:].split(':')[1] for e in ev if e[0] == 's']
+    nc = sum(1 for e in ev if e[0] == 'c')
+    real = alignsim.STATUS_CODE.get(rec['status'], None if rec['status'] is None else 'F?')
+    if (st[-1] if st else None) != real:
+        bad('status left in meta[fit_info]', impl=rec['status'], model_status=st)
+        return
+    if nc != rec['ncorr']:
+        bad('set_correction calls', impl=rec['ncorr'], model_calls=nc)
+
+
+def fitwcs_probes(ctx, lines, pending):
+    plan = fitwcs_plan()
+    reps = 2 if ctx.tier == 'quick' else 12
+    it = 0
+    for rep in range(reps * ctx.scale):
+        for content, mods in plan:
+            line, case, rec = fitwcs_case(ctx, it, content, mods)
+            it += 1
+            lines.append(line)
+            pending.append((case, rec, 'fitwcs'))
+        if ctx.search_only and rep >= 2:
+            break
+
+
 # ---------------------------------------------------------------------------
 def do_scenario(ctx, scene, scene_seed, spec, lines, pending, family):
     spec = decanon(canon(spec))
@@ -444,6 +1009,8 @@ def do_scenario(ctx, scene, scene_seed, spec, lines, pending, family):
     ctx.branch('opt:expand=%d,enforce=%d' % (spec['expand'], spec['enforce']))
     ctx.branch('opt:fitgeom=%s' % spec['fitgeom'])
     ctx.branch('opt:ref=%s' % (None if spec.get('ref') is None else spec['ref']['kind']))
+    mkrs = [m for m in (spec.get('makers') or []) if m]
+    ctx.branch('correctors:%s' % ('fits' if not mkrs else 'jwst'))
     oracle(ctx, case, rec)
     if rec['exc'] is None and alignsim.polluted(rec):
         # the uncorrected catalog of a FAILED zero-overlap group was appended (allowed by the
@@ -455,7 +1022,7 @@ def do_scenario(ctx, scene, scene_seed, spec, lines, pending, family):
         return rec
     minobj_eff = spec['minobj'] if spec['minobj'] is not None else FITMIN[spec['fitgeom']]
     lines.append(alignsim.model_line(rec, minobj_eff, f2x))
-    pending.append((case, rec))
+    pending.append((case, rec, 'align'))
     return rec
 
 
@@ -491,6 +1058,7 @@ def run(ctx):
         (['empty', 'empty', 'good'], [1, 1, 2]), (['good', 'good'], [1, 1]), (['good'], [None]),
         (['empty'], [None]), (['junk', 'good', 'good'], [None, None, None]),
     ]
+    ncorpus = 0
     for kinds, gids in corpus:
         for ref in (None, {'kind': 'table', 'region': 'centre', 'ids': None}):
             for expand, enforce in ((False, True), (True, False)):
@@ -503,6 +1071,9 @@ def run(ctx):
                 if any(g is not None for g in gids):
                     # falsy but legitimate labels: group 1 -> 0, group 2 -> '' (pool indices 0, 1)
                     spec['labels'] = {'1': 0, '2': 1} if expand else {'1': 1, '2': 7}
+                ncorpus += 1
+                if ncorpus % 2 == 0 and 'junk' not in kinds:
+                    spec['makers'] = ['jwst'] * len(kinds)
                 do_scenario(ctx, scene, scene_seed, spec, lines, pending, 'corpus')
     # exactly at the threshold: nmatches == minobj must succeed, nmatches == minobj - 1 must fail
     centre = alignsim.ref_sources(scene, 'centre')
@@ -515,7 +1086,7 @@ def run(ctx):
                     'expand': False, 'enforce': True, 'minobj': minobj, 'fitgeom': fitgeom, 'match': True}
             do_scenario(ctx, scene, scene_seed, spec, lines, pending, 'threshold')
     # random scenarios over the option matrix
-    for _ in range(ctx.n(100, 600)):
+    for _ in range(ctx.n(70, 500)):
         spec = gen_spec(rng)
         if spec is None:
             continue
@@ -531,9 +1102,22 @@ def run(ctx):
                 if spec is None:
                     continue
                 do_scenario(ctx, scene, scene_seed, spec, lines, pending, 'all-gids')
+    degenerate_scenarios(ctx, scene, scene_seed, lines, pending)
+    if not ctx.search_only:
+        validation_probes(ctx, scene, lines, pending)
+    fitwcs_probes(ctx, lines, pending)
+    compare_all(ctx, lines, pending)
+
+
+def compare_all(ctx, lines, pending):
     outs = ctx.driver(lines)
-    for out, (case, rec) in zip(outs, pending):
-        alignsim.compare_with_model(ctx, case, rec, out)
+    for out, (case, rec, op) in zip(outs, pending):
+        if op == 'entry':
+            compare_entry(ctx, case, rec, out)
+        elif op == 'fitwcs':
+            compare_fitwcs(ctx, case, rec, out)
+        else:
+            alignsim.compare_with_model(ctx, case, rec, out)
 
 
 def replay(ctx, payload):
@@ -544,12 +1128,20 @@ def replay(ctx, payload):
     case = fi['case']
     if case.get('op') == 'invalid-argument':
         invalid_argument_probes(ctx, alignsim.Scene(np.random.default_rng(1)))
+    elif case.get('op') == 'alignentry':
+        lines, pending = [], []
+        validation_probes(ctx, alignsim.Scene(np.random.default_rng(1)), lines, pending)
+        compare_all(ctx, lines, pending)
+    elif case.get('op') in ('fitwcs', 'degenerate-fit'):
+        # these cases are a deterministic function of (seed, tier): repeat the recorded run
+        ctx2 = type(ctx)(ctx.pid, payload.get('tier', ctx.tier), int(payload.get('seed', ctx.seed)))
+        run(ctx2)
+        ctx.oracle_failures, ctx.disagreements = ctx2.oracle_failures, ctx2.disagreements
     else:
         scene = alignsim.Scene(np.random.default_rng(case['scene_seed']))
         lines, pending = [], []
         do_scenario(ctx, scene, case['scene_seed'], decanon(case['spec']), lines, pending, 'replay')
-        for out, (c, rec) in zip(ctx.driver(lines), pending):
-            alignsim.compare_with_model(ctx, c, rec, out)
+        compare_all(ctx, lines, pending)
     bad = ctx.oracle_failures + ctx.disagreements
     for b in bad:
         print('STILL FAILS:', b['detail'])
